@@ -394,7 +394,7 @@ def run_apalache(name, module, init, inv, length, cinit, timeout=600):
 
 
 def simple_check(pid, tier, seed, t0, runs, rule, assume, level="model_checking", nontrivial=None, extra_cov=None,
-                 extra_mismatches=(), require_counters=()):
+                 extra_mismatches=(), require_counters=(), advisory_counters=()):
     """Generic pipeline: each run = dict(name, module, constants, invariants, constraints, simulate, depth, workers).
     nontrivial(case_dict) -> bool decides which generated cases count as non-trivial (distinct by content)."""
     results, mism, passc, failc, extra, samples = [], list(extra_mismatches), {}, {}, {}, []
@@ -430,6 +430,9 @@ def simple_check(pid, tier, seed, t0, runs, rule, assume, level="model_checking"
            "tlc_runs": tlc_summary(results)}
     if extra_cov:
         cov.update(extra_cov)
+    if advisory_counters:
+        # hook-level coverage that a property-preserving rewrite of the code may legitimately change: reported, never fatal
+        cov["advisory_counters_never_incremented"] = [k for k in advisory_counters if extra.get(k, 0) == 0]
     if require_counters:
         missing = [k for k in require_counters if extra.get(k, 0) == 0]
         if missing:
